@@ -142,6 +142,27 @@ pub fn run(run: &Run) {
             cp += n as u32;
         }
     });
+    {
+        // one thread, in order: the point is what a call leaves behind for the next one
+        let big = super::pipe::multi_megabyte_strings(&super::pipe::PAYLOADS_USER);
+        run.par("multi_megabyte_then_small", true, |tid, _n, l| {
+            if tid != 0 {
+                return;
+            }
+            for s in &big {
+                for p in profs {
+                    l.cases += 1;
+                    if let Err(mut v) = check(p, s, l) {
+                        v.case = json!({"op": "huge_input_sequence", "profile": p.name(), "failing_input_bytes": s.len(), "note": "multi_megabyte_strings() in order on one thread"});
+                        v.expected.truncate(200);
+                        v.observed.truncate(200);
+                        run.violate(v);
+                        return;
+                    }
+                }
+            }
+        });
+    }
     super::pipe::collisions(run, "fingerprint_collisions", &|s, l| profs.iter().all(|p| match check(*p, s, l) {
         Ok(()) => true,
         Err(v) => {
@@ -169,6 +190,30 @@ pub fn run(run: &Run) {
             for k in 0..=72usize {
                 for tail in ["", "zzzzzzzzzzzzzzzzzzzzzzzzzzzzzzzzzzzz"] {
                     let s = format!("{}{c}{tail}", "a".repeat(k));
+                    l.cases += 1;
+                    for p in profs {
+                        if check(p, &s, l).is_err() {
+                            report(run, p, &s);
+                            return;
+                        }
+                    }
+                }
+            }
+        }
+    });
+    // n DISTINCT characters with a lowercase mapping followed by repeats of earlier ones (per-call memo tables)
+    run.par("distinct_cased_runs_with_repeats", true, |tid, n, l| {
+        let ca = &pools().cased_all;
+        let mut idx = 0usize;
+        for start in (0..ca.len().saturating_sub(130)).step_by(23) {
+            for len in [7usize, 8, 9, 15, 16, 17, 31, 32, 33, 34, 63, 64, 65, 66, 100, 127, 128, 129] {
+                idx += 1;
+                if idx % n != tid {
+                    continue;
+                }
+                let run_s: String = ca[start..start + len].iter().collect();
+                for (a, b) in [(0usize, 1usize), (len - 1, 0), (len / 2, len / 2), (1, len - 2)] {
+                    let s = format!("{run_s}{}{}{}", ca[start + len], ca[start + a], ca[start + b]);
                     l.cases += 1;
                     for p in profs {
                         if check(p, &s, l).is_err() {
@@ -238,6 +283,13 @@ pub fn run(run: &Run) {
 
 pub fn replay(_run: &Run, case: &Value) -> Check {
     let p = Prof::from_name(case.get("profile").and_then(|p| p.as_str()).unwrap_or("")).expect("profile");
+    if case.get("op").and_then(|o| o.as_str()) == Some("huge_input_sequence") {
+        let mut l = Local::default();
+        for s in super::pipe::multi_megabyte_strings(&super::pipe::PAYLOADS_USER) {
+            check(p, &s, &mut l)?;
+        }
+        return Ok(());
+    }
     let s = jget_str(case, "input").expect("input");
     check(p, &s, &mut Local::default())
 }
